@@ -70,6 +70,7 @@ func c12Gen(seed uint64, run int, tier string) *Case {
 		c.Cfg["ver2"] = int64(r.Intn(2))
 		c.Cfg["prefill"] = int64(r.Range(1, 12))
 		c.Cfg["heldat"] = int64(r.Intn(3))
+		c.Cfg["pipelined"] = int64(r.Pick(0, 1, 2)) // 1: the request provoking a large reply, 2: an oversize frame shares the transport write with the second Tversion
 	}
 	return c
 }
@@ -127,6 +128,9 @@ func c12Exec(x *Ctx) {
 	peer := sc.Peer
 	negotiated := int64(-1)
 	peer.OnReply = func(r *Recvd) {
+		if r.M != nil && r.M.Type == Rversion {
+			negotiated = int64(r.M.Msize)
+		}
 		if negotiated > 0 && int64(len(r.Raw)) > negotiated {
 			x.Violate("m2-oversize-reply", "after negotiating msize %d the server sent a %d-byte %s", negotiated, len(r.Raw), TypeName(r.Raw[4]))
 		}
@@ -175,6 +179,42 @@ func c12Exec(x *Ctx) {
 			}
 			ver2 := c12Versions[int(c.cfg("ver2"))%2]
 			negotiated = -1
+			if pl := c.cfg("pipelined"); pl != 0 && c.cfg("heldat") == 0 {
+				// the second Tversion and the next request arrive in one transport read
+				cm2 := c.cfg("cmsize2")
+				tv := &Msg{Type: Tversion, Tag: NOTAG, Msize: uint32(cm2), Version: ver2}
+				var next *Msg
+				before := len(fs.Log)
+				if pl == 1 {
+					st.statLen[77] = int(cm2) * 3
+					next = &Msg{Type: Tstat, Tag: 77, Fid: 1}
+				} else {
+					next = &Msg{Type: Twstat, Tag: 78, Fid: 1, Stat: Stat{Type: 0xFFFF, Dev: 0xFFFFFFFF, Mode: 0xFFFFFFFF, Atime: 0xFFFFFFFF, Mtime: 0xFFFFFFFF, Length: ^uint64(0),
+						Name: string(make([]byte, int(cm2)+40))}}
+					x.Fault("size-oversize")
+				}
+				x.Fault("coalesce")
+				ss := peer.Write(tv, next)
+				rt.YieldUntil(rt.SiteActor, func() bool { return allReplied(ss) || peer.EOF })
+				x.Probe("request-pipelined-behind-tversion")
+				if pl == 2 {
+					if !peer.EOF {
+						x.Violate("m4-not-dropped", "a %d-byte frame arriving right behind a Tversion that lowered msize to %d was not answered by dropping the connection", len(ss[1].Raw), cm2)
+					}
+					for _, in := range fs.Log[before:] {
+						if in.Req != nil {
+							x.Violate("m4-executed", "a request (%s) larger than the msize just negotiated was executed", in.Op)
+						}
+					}
+					return
+				}
+				if peer.EOF {
+					x.Violate("m0-stalled", "the connection was dropped after a second Tversion with a request pipelined behind it")
+					return
+				}
+				st.battery(peer, negotiated, 10)
+				return
+			}
 			nm2, ok := st.version(peer, c.cfg("cmsize2"), ver2, nm, sdotu)
 			if !ok {
 				return
